@@ -495,7 +495,7 @@ func (p *Parser) parseCommodityDirective(startPos Position) ast.Directive {
 		symbol := p.current.Value
 		dir.Commodity = ast.Commodity{
 			Symbol: symbol,
-			Range:  ast.Range{Start: toASTPosition(p.current.Pos)},
+			Range:  ast.Range{Start: toASTPosition(p.current.Pos), End: toASTPosition(p.current.End)},
 		}
 		p.advance()
 
@@ -512,7 +512,7 @@ func (p *Parser) parseCommodityDirective(startPos Position) ast.Directive {
 		if p.current.Type == TokenCommodity || p.current.Type == TokenText {
 			dir.Commodity = ast.Commodity{
 				Symbol: p.current.Value,
-				Range:  ast.Range{Start: toASTPosition(p.current.Pos)},
+				Range:  ast.Range{Start: toASTPosition(p.current.Pos), End: toASTPosition(p.current.End)},
 			}
 			dir.Format = number + " " + p.current.Value
 			p.advance()
@@ -520,7 +520,7 @@ func (p *Parser) parseCommodityDirective(startPos Position) ast.Directive {
 	case TokenText:
 		dir.Commodity = ast.Commodity{
 			Symbol: p.current.Value,
-			Range:  ast.Range{Start: toASTPosition(p.current.Pos)},
+			Range:  ast.Range{Start: toASTPosition(p.current.Pos), End: toASTPosition(p.current.End)},
 		}
 		p.advance()
 	}
